@@ -24,7 +24,10 @@ let parse_op (l : string) : op =
   let nat s = nat_of_int (int_of_string s) and cell s = n_of_int (int_of_string s) in
   match w with
   | ["avail"; k] -> Avail (stage_of k)
-  | ["adv"; k; n] -> Advance (stage_of k, nat n)
+  | ["adv"; k; n] ->
+    (* `adv <k> =<n>` (directly after `avail <k>`): the harness advances by what the crate itself answered; <n> is the Model's answer *)
+    let n = if String.length n > 0 && n.[0] = '=' then String.sub n 1 (String.length n - 1) else n in
+    Advance (stage_of k, nat n)
   | ["get1"; k] -> GetOne (stage_of k)
   | ["nextitem"] -> GetOne P                       (* ProdIter::get_next_item_mut *)
   | ["peek"] -> GetOne C                           (* ConsIter::peek_ref *)
@@ -347,11 +350,23 @@ let window k s =
 let stages s = List.filter (fun k -> usable k s) [P; W; C]
 
 type genst = { mutable nextv : int }
+let last_avail : (stage * int) option ref = ref None
 
 let fresh_vals g n = let l = List.init n (fun i -> g.nextv + i) in g.nextv <- g.nextv + n; l
 
 (* one random, mostly contract-respecting operation (as text) for state s *)
-let gen_op (g : genst) (s : mstate) : string =
+let rec gen_op (g : genst) (s : mstate) : string =
+  match !last_avail with
+  | Some (k, a) when usable k s && not s.freed && avail_i k s = a && chance 45 ->
+    (* the usual `let n = it.available(); it.advance(n)`: the implementation advances by what IT answered *)
+    last_avail := None; Printf.sprintf "adv %s =%d" (sname k) a
+  | _ ->
+    let t = gen_op_plain g s in
+    (match String.split_on_char ' ' t with
+     | ["avail"; k] when not s.freed && usable (stage_of k) s -> last_avail := Some (stage_of k, avail_i (stage_of k) s)
+     | _ -> last_avail := None);
+    t
+and gen_op_plain (g : genst) (s : mstate) : string =
   let len = len_i s in
   let ks = stages s in
   if s.freed then "avail P"
